@@ -24,7 +24,7 @@
 (* rebases never conflict - conflicts are outside this rule book).  Where  *)
 (* the documents leave a choice the rule yields every permitted outcome.   *)
 (***************************************************************************)
-EXTENDS Naturals, Sequences, FiniteSets
+EXTENDS Integers, Sequences, FiniteSets, TLC
 
 Branches == {"master", "dev", "topic"}          \* local branch names of the model
 RemoteBranches == {"master", "dev"}             \* branches that exist upstream
@@ -44,6 +44,7 @@ Rebase(c, onto) == onto \o SelectSeq(c, LAMBDA x : x \notin Range(onto))
 (*  wv     which source archive the wrap file names (file kinds)           *)
 (*  rev    the `revision` of a wrap-git (a branch name here)               *)
 (*  ov     content version of the patch_directory overlay (0: none)        *)
+(*  omod   the overlay also holds a saved local file (packagefiles --save) *)
 (*  dir    "absent" | "present";  src / aov / mod: extracted archive       *)
 (*         version, applied overlay version, a local file of the user      *)
 (*  cache  archive versions in subprojects/packagecache                    *)
@@ -63,7 +64,8 @@ Absent(w) == [w EXCEPT !.dir = "absent", !.src = 0, !.aov = 0, !.mod = FALSE, !.
                        !.lb = NoBranches, !.rt = NoRemotes, !.dirty = "clean", !.stash = 0]
 
 \* [WM] a wrap-file is downloaded (into the package cache), extracted and the overlay is put on top
-Extracted(w) == [Absent(w) EXCEPT !.dir = "present", !.src = w.wv, !.aov = w.ov, !.cache = w.cache \cup {w.wv}]
+Extracted(w) == [Absent(w) EXCEPT !.dir = "present", !.src = w.wv, !.aov = w.ov, !.mod = (w.ov > 0 /\ w.omod),
+                                  !.cache = w.cache \cup {w.wv}]
 
 \* [WM] wrap-git: clone `url`, check out `revision`.  A clone has the remote's branches as remote-tracking refs, a
 \* local branch for the remote's default branch (master) and one for the revision that was checked out.
@@ -81,8 +83,9 @@ KeptOrStashed(w) == {w, Stashed(w)}
 (* Commands.  c: "download" | "update" | "checkout" | "foreach" | "purge"  *)
 (* | "packagefiles";  sel: [k: "all" | "name" | "grp", v];  types: set of  *)
 (* type names (empty: no --types);  j: -j (0: not given);  reset, b,       *)
-(* branch, confirm, cache (--include-cache);  fail: names of subprojects   *)
-(* in whose directory the foreach command exits non-zero.                  *)
+(* branch, confirm, cache (--include-cache), save (packagefiles --save     *)
+(* instead of --apply);  fail: names of subprojects in whose directory the *)
+(* foreach command exits non-zero.                                         *)
 (***************************************************************************)
 KnownTypes == {"file", "git", "hg", "svn", "redirect"}        \* [CM] help of --types
 
@@ -198,10 +201,24 @@ PurgeTokens(cmd, w) ==
 
 \* ----- packagefiles --apply: [R60] "re-apply `meson.build` overlays (`patch_filename` or `patch_directory` in the wrap
 \* ini file) after a subproject was downloaded and set up"
-Packagefiles(cmd, w) ==
+PackagefilesApply(cmd, w) ==
     IF w.kind \in {"file", "redirect"} /\ w.dir = "present" /\ w.ov > 0
-    THEN Rule("Packagefiles.ReappliesOverlay", {Out([w EXCEPT !.aov = w.ov], TRUE)})
+    THEN Rule("Packagefiles.ReappliesOverlay", {Out([w EXCEPT !.aov = w.ov, !.mod = (w.mod \/ w.omod)], TRUE)})
     ELSE Rule("Packagefiles.NothingToApply", {Out(w, TRUE)})
+
+\* ----- packagefiles --save: [R60] "for `patch_directory` overlays in a `[wrap-file]`, to copy the packagefiles out of the
+\* subproject and back into `packagefiles/<patch_directory>/` [...] useful for testing an edit in the subproject and then
+\* saving it back to the overlay".  The packagefiles of a subproject are its files that did not come from the source
+\* archive (the one the wrap file names: it must be at hand, in the package cache, to tell them apart).  Where there is
+\* nothing to copy out of (no directory, no archive, no patch_directory) nothing is saved - and the overlay, which is
+\* checked into the user's repository, is not touched; the documents do not say whether that counts as a failure.
+PackagefilesSave(cmd, w) ==
+    IF ~(w.kind \in {"file", "redirect"} /\ w.ov > 0) THEN Rule("Packagefiles.SaveNeedsPatchDirectory", Oks({w}, BOOLEAN))
+    ELSE IF w.dir = "absent" THEN Rule("Packagefiles.SaveNotFetchedKeepsOverlay", Oks({w}, BOOLEAN))
+    ELSE IF w.wv \notin w.cache THEN Rule("Packagefiles.SaveWithoutArchiveKeepsOverlay", Oks({w}, BOOLEAN))
+    ELSE Rule("Packagefiles.SaveCopiesOverlayBack", {Out([w EXCEPT !.ov = w.aov, !.omod = w.mod], TRUE)})
+
+Packagefiles(cmd, w) == IF cmd.save THEN PackagefilesSave(cmd, w) ELSE PackagefilesApply(cmd, w)
 
 \* the rule that governs one selected subproject
 Task(cmd, w) == CASE cmd.c = "download" -> Download(cmd, w)
@@ -228,11 +245,14 @@ IsRunOutcome(cmd, ws, ws2, oks) ==
 ExitNonZero(oks) == \E i \in DOMAIN oks : ~oks[i]
 
 \* every outcome of a whole invocation (small worlds only: a product over the selected subprojects)
+RECURSIVE Picks(_, _, _)
+Picks(cmd, ws, S) == IF S = {} THEN {<<>>}
+                     ELSE LET i == CHOOSE x \in S : TRUE
+                          IN { (i :> o) @@ f : o \in Task(cmd, ws[i]).outs, f \in Picks(cmd, ws, S \ {i}) }
 RunOutcomes(cmd, ws) ==
     LET sel == Selected(cmd, ws)
-        choice == [sel -> UNION { Task(cmd, ws[i]).outs : i \in sel }]
     IN { [ws |-> [i \in DOMAIN ws |-> IF i \in sel THEN f[i].st ELSE ws[i]], oks |-> [i \in sel |-> f[i].ok]] :
-            f \in { g \in choice : \A i \in sel : g[i] \in Task(cmd, ws[i]).outs } }
+            f \in Picks(cmd, ws, sel) }
 
 ---------------------------------------------------------------------------
 (* Environment events: what the user and the upstreams do between two      *)
@@ -305,7 +325,7 @@ LawUpdate(cmd, ws, ws2) ==
     cmd.c = "update" => \A i \in Selected(cmd, ws) :
         LET w == ws[i]  w2 == ws2[i] IN
         /\ (w.kind \in {"file", "redirect"} /\ w.dir = "present" /\ ~cmd.reset) => w2 = w
-        /\ (w.kind \in {"file", "redirect"} /\ w.dir = "present" /\ cmd.reset) => (w2.src = w.wv /\ ~w2.mod /\ w2.aov = w.ov)
+        /\ (w.kind \in {"file", "redirect"} /\ w.dir = "present" /\ cmd.reset) => (w2.src = w.wv /\ w2.aov = w.ov /\ (w2.mod => w.omod))
         /\ w.dir = "absent" => w2 = w
         /\ (w.kind = "git" /\ w.dir = "present" /\ w.repo /\ ~cmd.reset) =>
               /\ LocalCommits(w) \subseteq LocalCommits(w2)
@@ -326,7 +346,69 @@ LawCheckout(cmd, ws, ws2) ==
             /\ PendingKept(w, w2)
             /\ \A b \in Branches : w.lb[b] # <<>> => w2.lb[b] = w.lb[b]
 \* L7 what the user and the upstream own is never edited by a command: wrap files' content, overlays, upstreams
+\*    (the one exception is what `packagefiles --save` is for: it rewrites the overlay)
 LawInputsKept(cmd, ws, ws2) ==
-    \A i \in DOMAIN ws : /\ ws2[i].wv = ws[i].wv /\ ws2[i].rev = ws[i].rev /\ ws2[i].ov = ws[i].ov /\ ws2[i].up = ws[i].up
+    \A i \in DOMAIN ws : /\ ws2[i].wv = ws[i].wv /\ ws2[i].rev = ws[i].rev /\ ws2[i].up = ws[i].up
                          /\ ws2[i].kind = ws[i].kind /\ ws2[i].name = ws[i].name
+                         /\ ~(cmd.c = "packagefiles" /\ cmd.save) => (ws2[i].ov = ws[i].ov /\ ws2[i].omod = ws[i].omod)
+\* L8 packagefiles: --apply brings the tree's overlay to the overlay's content and never deletes a file; --save followed
+\*    by a fresh extraction gives back the tree's overlay files (round trip), never empties an overlay, and neither form
+\*    touches the source, the cache or the directory's existence
+LawPackagefiles(cmd, ws, ws2) ==
+    cmd.c = "packagefiles" => \A i \in DOMAIN ws :
+        LET w == ws[i]  w2 == ws2[i] IN
+        /\ w2.dir = w.dir /\ w2.src = w.src /\ w2.cache = w.cache /\ w2.live = w.live
+        /\ ~cmd.save => (w.mod => w2.mod) /\ (w2.aov \in {w.aov, w.ov})
+        /\ cmd.save => /\ w2.aov = w.aov /\ w2.mod = w.mod
+                       /\ (w.ov > 0 => w2.ov > 0)
+                       /\ (w2.ov # w.ov \/ w2.omod # w.omod) => (Extracted(w2).aov = w.aov /\ Extracted(w2).mod = w.mod)
+
+---------------------------------------------------------------------------
+(* What a run reports and when it runs things (`foreach`, any -j).         *)
+(* [SP] "will execute a command in each subproject directory"; [R59] "All  *)
+(* `meson subprojects` commands are now run on each subproject in parallel *)
+(* by default. The number of processes can be controlled with              *)
+(* `--num-processes`" - parallelism is a speed-up: what is reported about  *)
+(* one subproject stays one block as in a sequential run, every selected   *)
+(* subproject is still served exactly once, and [SP] a failure does not    *)
+(* stop the others.                                                        *)
+(* A report is a sequence of tokens <<name, kind>>: kind "head" (the line  *)
+(* that announces a subproject), "m1" / "m2" (the two lines the command of *)
+(* the harness prints in a directory); tokens with name "" are lines that  *)
+(* name nobody.  A schedule is a sequence of events <<kind, name>>, kind   *)
+(* "start" | "end".                                                        *)
+(***************************************************************************)
+Named(toks) == SelectSeq(toks, LAMBDA t : t[1] # "")
+Of(toks, n) == SelectSeq(toks, LAMBDA t : t[1] = n)
+KindsOf(toks, n) == [k \in 1..Len(Of(toks, n)) |-> Of(toks, n)[k][2]]
+\* the tokens that name one subproject are next to each other
+ContiguousDecl(toks) == LET nm == Named(toks) IN
+    \A p, r \in 1..Len(nm) : (p < r /\ nm[p][1] = nm[r][1]) => \A q \in p..r : nm[q][1] = nm[p][1]
+\* the same, counted (used on long reports): the name changes exactly (number of names - 1) times
+Contiguous(toks) == LET nm == Named(toks) IN
+    nm = <<>> \/ Cardinality({ p \in 1..(Len(nm) - 1) : nm[p][1] # nm[p + 1][1] }) + 1 = Cardinality({ nm[p][1] : p \in 1..Len(nm) })
+\* sel: names of the selected subprojects, runs: those that have a directory to run the command in
+ReportOK(toks, sel, runs) ==
+    /\ \A k \in 1..Len(toks) : toks[k][1] = "" \/ toks[k][1] \in sel
+    /\ \A n \in runs : KindsOf(toks, n) = <<"head", "m1", "m2">>
+    /\ \A n \in sel \ runs : KindsOf(toks, n) \in {<<>>, <<"head">>}
+    /\ Contiguous(toks)
+Starts(evs) == SelectSeq(evs, LAMBDA e : e[1] = "start")
+CountOf(evs, kind, n) == Len(SelectSeq(evs, LAMBDA e : e[1] = kind /\ e[2] = n))
+Running(evs, k) == Len(SelectSeq(SubSeq(evs, 1, k), LAMBDA e : e[1] = "start")) - Len(SelectSeq(SubSeq(evs, 1, k), LAMBDA e : e[1] = "end"))
+\* the largest number of commands in their directories at the same time: as a definition, and as a fold
+PeakDecl(evs) == IF evs = <<>> THEN 0 ELSE CHOOSE m \in 0..Len(evs) : (\E k \in 1..Len(evs) : Running(evs, k) = m) /\ \A k \in 1..Len(evs) : Running(evs, k) <= m
+RECURSIVE PeakFrom(_, _, _, _)
+PeakFrom(evs, k, cur, best) ==
+    IF k > Len(evs) THEN best
+    ELSE LET c == IF evs[k][1] = "start" THEN cur + 1 ELSE cur - 1 IN PeakFrom(evs, k + 1, c, IF c > best THEN c ELSE best)
+Peak(evs) == PeakFrom(evs, 1, 0, 0)
+\* every directory that is to run the command runs it exactly once, to the end, and nobody else does
+RunsOnce(evs, runs) ==
+    /\ \A k \in 1..Len(evs) : evs[k][2] \in runs
+    /\ \A n \in runs : CountOf(evs, "start", n) = 1 /\ CountOf(evs, "end", n) = 1
+\* -j N bounds what runs at the same time (N = 0: no bound given)
+AtMostJ(evs, j) == j = 0 \/ Peak(evs) <= j
+\* when no task finishes by itself (the harness holds them), N of them do get to run at the same time
+ParallelUpToJ(evs, j, runs) == j = 0 \/ Peak(evs) = (IF Cardinality(runs) < j THEN Cardinality(runs) ELSE j)
 =============================================================================
